@@ -862,7 +862,7 @@ def check_schema(prog: Program) -> list[Result]:
         by_name = {n._name: n for n in q.expr.walk()}
         culprits = [by_name[n] for n in bad_nodes if n in by_name and not any(d._name in bad_nodes for d in by_name[n].dependencies())]
         culprit = culprits[0] if culprits else q.expr
-        kinds = ",".join({0: "scalar", 1: "series", 2: "frame"}.get(getattr(d, "ndim", None), "?") + ("-1part" if d.npartitions == 1 and culprit.npartitions > 1 else "") for d in culprit.dependencies())
+        kinds = ",".join({0: "scalar", 1: "series", 2: "frame"}.get(getattr(d, "ndim", None), "?") + ("-1part" if d.npartitions == 1 and getattr(d, "ndim", None) == 1 else "") for d in culprit.dependencies())
         for r in out:
             if r.status == VIOLATION and "mismatch_node" in r.extra:
                 from dask_expr._expr import Binop
